@@ -257,12 +257,16 @@ def run(ctx: Ctx):
         spec = rich.random_spec(rng)
         if s == 0:
             spec["overlap_depth"] = 5          # exactly the documented lane budget
+        if s == 1:
+            spec["R"], spec["groups"], spec["stale"] = 2, max(1, spec["groups"]), True   # stale group dropped in-stream
         singles = [[]] + DOMAIN_OPTS
         pairs = []
         for _ in range(ctx.n(6, 20)):
             a, b = rng.sample(DOMAIN_OPTS, 2)
             pairs.append(a + b)
         osets = (rng.sample(singles, 5) + pairs[:4]) if ctx.quick() else singles + pairs
+        if spec.get("stale") and ["--flow"] not in osets:
+            osets = osets + [["--flow"]]
         for oi, o in enumerate(osets):
             with_I = oi % 3 == 0 and "--tb" not in o
             ecases.append({"kind": "e2e", "spec": spec, "opts": o, "with_I": with_I})
